@@ -363,6 +363,71 @@ def run_http(fx, mount, dirlisting, target, extra_headers=(), proto='1.1', direc
     return obs
 
 
+def run_http_pair(fx, first, second):
+    """two requests, one after the other, on one keep-alive connection (front end `http`); each is (target, extra headers).
+    -> (bytes written for the first, bytes written for the second, problems)"""
+    srv = _Server()
+    srv.http = HTTP(srv).register(srv)
+    Dispatcher().register(srv)
+    Static(None, docroot=fx.docroot, dirlisting=False).register(srv)
+    probe = _Probe().register(srv)
+    _settle(srv)
+    sock = socket.socketpair()
+    outs = []
+    problems = []
+    try:
+        for target, extra in (first, second):
+            raw = 'GET %s HTTP/1.1\r\nHost: h\r\n' % target
+            for k, v in extra:
+                raw += '%s: %s\r\n' % (k, v)
+            before = len(probe.out)
+            srv.fire(read(sock[0], (raw + '\r\n').encode('latin-1')))
+            if _settle(srv) is None:
+                problems.append('no quiescence')
+            outs.append(b''.join(probe.out[before:]))
+    except BaseException as exc:  # noqa: BLE001
+        problems.append('exception escaped tick(): %r' % (exc,))
+    finally:
+        for x in sock:
+            x.close()
+    while len(outs) < 2:
+        outs.append(b'')
+    return outs[0], outs[1], problems
+
+
+PAIR_REQUESTS = [('/r0.bin', ()), ('/r1.bin', ()), ('/r10.bin', ()), ('/r10.bin', (('Range', 'bytes=2-5'),)), ('/r100.bin', (('Range', 'bytes=-10'),)),
+                 ('/r100.bin', (('Range', 'bytes=0-0,5-9'),)), ('/r0.bin', (('Range', 'bytes=0-'),)), ('/a.txt', ())]
+
+
+def _strip_date(b):
+    # (also the random multipart boundary)
+    return re.sub(rb'=+\d+==', b'BOUNDARY', re.sub(rb'\r\n(Date|Last-Modified): [^\r]*', b'', b))
+
+
+def _pair_work(part, nparts, payload):
+    tier, seed, fx = payload
+    st = core.Stats()
+    idx = -1
+    for first in PAIR_REQUESTS:
+        for second in PAIR_REQUESTS:
+            idx += 1
+            if idx % nparts != part:
+                continue
+            o1, o2, problems = run_http_pair(fx, first, second)
+            alone, _x, p2 = run_http_pair(fx, second, second)
+            st.executions += 2
+            st.counters['keep_alive_pairs'] += 1
+            st.interesting(('pair', first, second))
+            st.outcome(('pair', first, second, _strip_date(o2)[:200]))
+            wit = {'kind': 'pair', 'first': [first[0], [list(h) for h in first[1]]], 'second': [second[0], [list(h) for h in second[1]]]}
+            if problems:
+                st.fail('pair:problem', '%s  [keep-alive pair %r then %r]' % ('; '.join(problems), first, second), wit)
+            elif b'Connection: close' not in o1 and _strip_date(o2) != _strip_date(alone):
+                st.fail('pair:second-answer-differs', 'on one keep-alive connection, after %r the request %r is answered with %r...; sent as the first '
+                        'request of a connection it is answered with %r...' % (first, second, _strip_date(o2)[:120], _strip_date(alone)[:120]), wit)
+    return st
+
+
 def run_wsgi(fx, mount, dirlisting, target, extra_headers=(), proto='1.1'):
     """front end `wsgi`: wsgi.Application + Static, PATH_INFO handed over as is (never passes HTTP._on_read's guard)"""
     app = _CountingApplication()
@@ -867,6 +932,7 @@ def _range_work(part, nparts, payload):
 def _work(part, nparts, payload):
     st = _path_work(part, nparts, payload)
     st.merge(_range_work(part, nparts, payload))
+    st.merge(_pair_work(part, nparts, payload))
     return st
 
 
@@ -876,8 +942,9 @@ def run(tier, seed, workers):
         npaths = sum(1 for _ in path_cases(tier)) * len(FRONTENDS)
         nranges = sum(1 for _ in range_cases(tier))
         st = core.parallel(_work, (tier, seed, fx), workers, nparts=workers * 4)
-        if st.executions != npaths + nranges:
-            st.selfcheck_errors.append('enumeration: %d executions of %d cases' % (st.executions, npaths + nranges))
+        npairs = 2 * len(PAIR_REQUESTS) ** 2
+        if st.executions != npaths + nranges + npairs:
+            st.selfcheck_errors.append('enumeration: %d executions of %d cases' % (st.executions, npaths + nranges + npairs))
         # determinism: the same case twice
         install_watch()
         _WATCH.update(root=fx.tmp, docroot=fx.docroot)
@@ -927,6 +994,16 @@ def replay(wit):
     try:
         install_watch()
         _WATCH.update(root=fx.tmp, docroot=fx.docroot)
+        if wit['kind'] == 'pair':
+            first = (wit['first'][0], tuple(tuple(h) for h in wit['first'][1]))
+            second = (wit['second'][0], tuple(tuple(h) for h in wit['second'][1]))
+            o1, o2, problems = run_http_pair(fx, first, second)
+            alone, _x, _p = run_http_pair(fx, second, second)
+            ok = not problems and (b'Connection: close' in o1 or _strip_date(o2) == _strip_date(alone))
+            text = 'keep-alive pair %r then %r\nfirst answer %r\nsecond answer %r\nthe second request alone %r\nproblems %r\n' % (
+                first, second, o1[:200], o2[:200], alone[:200], problems)
+            text += 'all clauses hold\n' if ok else 'VIOLATED pair: the second answer differs from the answer to the same request alone\n'
+            return ok, text
         fe = wit['frontend']
         if wit['kind'] == 'path':
             segs = tuple(SEGMENTS.index(s) for s in wit['segments'])
